@@ -20,17 +20,31 @@
       private field is not called [vftable], backend strings trimmed);
       [C18_module_eqb_correct]: the boolean equality used to compare the Coq parser's module with
       the real parser's is equality.
-    NOT MODELLED, by nature: lexing (whitespace, comments, literal spellings, doc comments becoming
-    doc attributes -- the token stream is the real lexer's) and error positions.  The theorems are
+    - INTEGER LITERALS (IntLit.v, IntLitSyntax.v): [lit_value], the value and suffix of a literal
+      spelling as proc_macro2's lexer and syn's [parse_lit_int] read it (prefixes [0x 0o 0b],
+      underscores, either hex case, suffixes, the float look-alikes that are NOT integers), and
+      [read_isize] / [read_usize] = pyxis's [base10_parse::<isize>] / [::<usize>] on top of it:
+      [C18_literal_value_of_every_spelling] (every spelling of [n] in every base, with any
+      underscores and any admissible suffix, reads as [n] -- for all [n]),
+      [C18_decimal_literal_roundtrip] / [C18_printed_number_reads_back] (the printer's decimal
+      spelling is the only canonical one and reads back), [C18_isize_reading_spec] /
+      [C18_usize_reading_spec] (reading succeeds exactly when the value is in range; [usize] takes
+      no sign), [C18_int_token_printed] (the token the grammar model consumes).
+    NOT MODELLED, by nature: the rest of lexing (whitespace, comments, string literals, doc comments
+    becoming doc attributes -- the token stream is the real lexer's) and error positions.  The theorems are
     about the printer's canonical spelling; other legal spellings are covered by the correspondence
     of this property: (A) abstract modules over the full grammar are printed with randomised legal
     formatting and parsed by the REAL parser, which must return exactly the generated module; (B)
     the Coq parsers and the real parser are run on the same token streams -- types, attribute
     lists, and (C) whole module texts, valid and token-damaged -- and must agree on acceptance and on
-    the module. *)
+    the module; (D) integer literal spellings, well formed and damaged, in an isize position and
+    in a usize position: the real parser and [read_isize] / [read_usize] must agree on acceptance
+    and on the value. *)
 From Coq Require Import List NArith ZArith Bool String.
 From PyxisModel Require Import Base Grammar Syntax SyntaxLemmas SyntaxItems ModuleEq SyntaxItemsLemmas.
 Import ListNotations.
+
+From PyxisModel Require IntLit IntLitSyntax.
 
 Theorem C18_type_roundtrip : forall t fuel rest,
   wf_type t -> stops_type_ident rest -> (type_depth t <= fuel)%nat ->
@@ -84,3 +98,44 @@ Print Assumptions C18_module_eqb_correct.
 Example C18_module_example :
   wf_module Example.m /\ parse_module (print_module Example.m) = Some Example.m.
 Proof. split; [exact Example.m_wf | exact Example.m_roundtrip]. Qed.
+
+Theorem C18_literal_value_of_every_spelling :
+  forall (up : bool) (base n : N) (lead : nat) (mask : list nat) (sfx : string),
+    IntLit.valid_base base = true ->
+    IntLit.lead_ok base lead = true ->
+    IntLit.suffix_ok base sfx = true ->
+    IntLit.lit_value (IntLit.with_underscores_gen lead mask (IntLit.spell_case up base n) +++ sfx) =
+    Some (n, sfx).
+Proof. exact IntLit.lit_value_general. Qed.
+Print Assumptions C18_literal_value_of_every_spelling.
+
+Theorem C18_decimal_literal_roundtrip :
+  forall (s : string) (n : N),
+    IntLit.canonical_dec s = true -> IntLit.lit_value s = Some (n, ""%string) -> s = IntLit.spell 10 n.
+Proof. exact IntLit.lit_value_inj_canonical. Qed.
+Print Assumptions C18_decimal_literal_roundtrip.
+
+Theorem C18_printed_number_reads_back :
+  forall n : N, IntLit.lit_value (dec_of_N n) = Some (n, ""%string).
+Proof. exact IntLit.lit_value_dec_of_N. Qed.
+Print Assumptions C18_printed_number_reads_back.
+
+Theorem C18_isize_reading_spec :
+  forall (neg : bool) (s : string) (z : Z),
+    IntLit.read_isize neg s = Some z <->
+    (exists (n : N) (sfx : string),
+       IntLit.lit_value s = Some (n, sfx) /\ z = IntLit.signed neg n /\ (isize_min <= z <= isize_max)%Z).
+Proof. exact IntLit.read_isize_spec. Qed.
+Print Assumptions C18_isize_reading_spec.
+
+Theorem C18_usize_reading_spec :
+  forall (neg : bool) (s : string) (n : N),
+    IntLit.read_usize neg s = Some n <->
+    neg = false /\ (exists sfx : string, IntLit.lit_value s = Some (n, sfx) /\ (n <= usize_max)%N).
+Proof. exact IntLit.read_usize_spec. Qed.
+Print Assumptions C18_usize_reading_spec.
+
+Theorem C18_int_token_printed :
+  forall n : N, IntLitSyntax.int_token false (dec_of_N n) = Some (KInt (Z.of_N n)).
+Proof. exact IntLitSyntax.int_token_printed. Qed.
+Print Assumptions C18_int_token_printed.
